@@ -185,6 +185,35 @@ theorem no_invention_all_ops_note (root : List Nat) (g0 : Nat → Author) (hnd :
   obtain ⟨y, hm, _, _, hg⟩ := mem_expectedPartialNote r.sp i s hmem
   exact ⟨y, hm, hg⟩
 
+/-- **a commit lists only lines it adds, over the union alphabet (C04 "once" / C02).** After ANY valid
+    sequence of edits, checkpoints, staging, commits, history rewriting (amend, reset, rebase-like `ROp`s),
+    discarding operations and stash operations, the note written by a commit names no line that HEAD holds
+    at that moment: a line recorded for an earlier commit that is still in HEAD is never recorded again.
+    (`Sys.head_line_not_listed` is the same statement over the commit/stage alphabet.) -/
+theorem head_line_not_listed_all_ops (root : List Nat) (g0 : Nat → Author) (hnd : root.Nodup)
+    (hroot : ∀ y ∈ root, g0 y = none) (pre post : List DOp)
+    (hv : ValidDOps root ⟨cleanSpec root g0, [], []⟩ (pre ++ .r (.base .commit) :: post))
+    (note : Note) (y : Nat) :
+    let r := dspecRun ⟨cleanSpec root g0, [], []⟩ pre
+    y ∈ r.sp.st.head → (step r.sp.st .commit).notes.head? = some note →
+    ∀ j s, (j, s) ∈ note → ∀ z, (j, z) ∈ enum1 r.sp.st.index → z ≠ y := by
+  intro r hy hnote j s hmem z hz he
+  subst he
+  have h0 : RInv root (cleanSpec root g0) :=
+    ⟨cleanSpec_inv2 root g0 hnd, trivial, rfl, hroot, fun y hy => hy, hnd, by intro cp hcp; simp [cleanSpec] at hcp⟩
+  have h00 : RInv2 root ⟨cleanSpec root g0, [], []⟩ := ⟨h0, trivial⟩
+  obtain ⟨hv1, hv2⟩ := validDOps_append root _ pre _ hv
+  have h := (dspecRun_inv root _ pre h00 hv1).1
+  have hok : CommitOK3 r.sp := hv2.1
+  have hn : (step r.sp.st .commit).notes.head? = some (expectedPartialNote r.sp) :=
+    (commit_spec r.sp h.inv2 hok.1).1
+  rw [hn] at hnote
+  cases hnote
+  obtain ⟨y', hm', hnh, _, _⟩ := mem_expectedPartialNote r.sp j s hmem
+  have := enum1_functional r.sp.st.index j z y' hz hm'
+  subst this
+  exact hnh hy
+
 /-- a working log without entries and without INITIAL credits nobody, whatever the file contains -/
 theorem wlAuthor_no_claims (st : State) (he : st.entries = []) (hi : st.initial = []) (y : Nat) :
     wlAuthor st y = none := by
@@ -449,6 +478,7 @@ end GitAi.Sys
 
 #print axioms GitAi.Sys.no_invention_all_ops
 #print axioms GitAi.Sys.no_invention_all_ops_note
+#print axioms GitAi.Sys.head_line_not_listed_all_ops
 #print axioms GitAi.Sys.no_invention_ws_step_partial
 #print axioms GitAi.Sys.reset_keeps_reindented_lines_of_target
 #print axioms GitAi.Sys.discard_drops_claims
